@@ -2,6 +2,7 @@
 (numpy object array of payload ids indexed through a torch index proxy)."""
 from __future__ import annotations
 
+import os
 import warnings
 
 import numpy as np
@@ -699,3 +700,70 @@ def update_at_entry_stream(run):
                             fingerprint=f"update-at-entry:{'stack' if has_stack(spec) else 'shared'}:content")
         else:
             run.oracle_ok("update-at-entry")
+
+
+def storage_setitem_stream(run, drv):
+    """CORRESPONDENCE for the finding C16-storage-holder-write-dropped: `td[idx] = value` on a memory-mapped / shared-memory holder.
+    Whenever the real write is ACCEPTED, the representation of the entry afterwards must be what the model `storageSet`
+    (no promotion; shared nodes swallow the write) computes.  Refusals are counted (the model is not asked to predict them: they
+    depend on the storage kind).  Shared-memory holders get str payloads only (another finding: a shared slot is refilled by type)."""
+    import shutil
+    import tempfile
+    from common import BUILD
+    n = 250 if run.tier == "quick" else 2000
+    reqs, pend = [], []
+    scratch = tempfile.mkdtemp(prefix="c16s_", dir=str(BUILD))
+    try:
+        for it in range(n):
+            shape = N.gen_shape(run.rng, 3)
+            if not shape:
+                continue
+            kind = run.rng.choice(["memmap", "shared"])
+            pool = ["o0", "o8"] if kind == "shared" else N.IDS
+            a = np.empty(shape, dtype=object)
+            flat = a.reshape(-1)
+            const = run.rng.choice(pool) if run.rng.random() < 0.4 else None
+            for i in range(flat.size):
+                flat[i] = const or run.rng.choice(pool)
+            a = flat.reshape(shape)
+            spec = N.represent(a, run.rng, p_shared=0.6)
+            if spec[0] != "st":
+                continue
+            idx, proto = N.gen_index(run.rng, shape, advanced=run.rng.random() < 0.2, allow_none=False, unique_list=True, in_range=True)
+            try:
+                pos = N.positions(shape, idx)
+            except Exception:  # noqa: BLE001
+                continue
+            if pos.numel() == 0:
+                continue
+            vshape = list(pos.shape)
+            v = np.empty(vshape, dtype=object)
+            v[...] = run.rng.choice([p for p in pool if p not in set(a.reshape(-1))] or pool)
+            vspec = N.represent(v, run.rng, p_shared=0.8)
+            case = {"holder": kind, "spec": str(spec), "index": repr(idx), "value": str(vspec)}
+            try:
+                with time_limit(20):
+                    td = N.holder(spec, shape)
+                    if kind == "memmap":
+                        td.memmap_(os.path.join(scratch, f"s{it}"))
+                    else:
+                        td.share_memory_()
+                    td[idx] = N.holder(vspec, vshape)
+                    impl = N.read(td.get("a"))
+            except TimeoutError:
+                raise
+            except Exception as ex:  # noqa: BLE001
+                run.count("storage_setitem.outcome", f"{kind}:refused:{impl_err(ex)}")
+                continue
+            run.case(("storage-setitem", kind, str(spec), repr(idx)), nontrivial=True)
+            run.count("storage_setitem.outcome", f"{kind}:accepted")
+            # k = how many dims the WRITTEN index addresses (an Ellipsis is expanded into explicit full slices by the library)
+            k = len(shape) if "ell" in proto else sum(1 for p in proto if p is not None)
+            reqs.append(sx("c16.storageset", N.to_sx(spec), proto, k, N.to_sx(vspec)))
+            pend.append((case, impl))
+    finally:
+        shutil.rmtree(scratch, ignore_errors=True)
+    for (case, impl), ans in zip(pend, ask(drv, reqs)):
+        m = parse_sx(ans)
+        model = ["ok", N.from_parsed(m[1])] if m[0] == "ok" else ["err", m[1]]
+        run.corr("setitem on a shared / memory-mapped holder(representation)", case, ["ok", impl], model)
